@@ -438,7 +438,7 @@ def go_events(kind):
     ev = [('append', x) for x in pool]
     ev += [('extend', (pool[0], pool[1])), ('extend', (pool[1], pool[0], pool[1])), ('extend', ())]
     ev += [('read', r) for r in READS]
-    ev += [('derive', r) for r in ('static-constructor', 'Series(index=)', 'iloc[:]')]
+    ev += [('derive', r) for r in ('static-constructor', 'Series(index=)', 'iloc[:]', 'deepcopy+append', 'copy+append')]
     return ev
 
 
@@ -501,6 +501,16 @@ def apply_event(ctx, kind, subject, model, ev, info, derived):
         try:
             if arg == 'static-constructor':
                 d = ix._IMMUTABLE_CONSTRUCTOR(ix)
+            elif arg in ('deepcopy+append', 'copy+append'):
+                # a grow-only copy that is itself grown: from now on the two have separate lives
+                import copy as _copy
+                if kind == 'FrameGO-columns':
+                    return True
+                d = _copy.deepcopy(ix) if arg.startswith('deepcopy') else ix.copy()
+                own = {'IndexHierarchyGO': ('zz', 7), 'IndexHierarchyGO-depth3': ('ZZ', 'z', 7), 'IndexDateGO': D('2031-01-01')}.get(kind, 'OWN' if not kind.startswith('IndexGO-auto') else 10 ** 6)
+                d.append(own)
+                derived.append((arg, d, list(model) + [own]))
+                return True
             elif arg == 'Series(index=)':
                 d = sf.Series(np.arange(len(model)), index=ix).index
             else:
